@@ -244,8 +244,23 @@ def _one_site2(ctx, s2) -> int:
         ctx.ob("a.site-typing", s2.top, f"site:{_ord(ctx, s2.top)}:{s2.sh(s2.dtype, 30)}", ok, msg if ok else "", s2.node, message=msg)
         return 0
     problems, notes = [], []
+    # (data and dtype chosen TOGETHER by one condition - a helper that returns (values, dtype) from two branches: each dtype
+    #  alternative is judged against the data alternatives of its own branch)
+    def _lwc3(t, conds=()):
+        """alternatives with the conditions that select them, each condition kept whole (`a and b` is one literal)"""
+        if t is None:
+            return []
+        if t[0] == "ifexp":
+            return _lwc3(t[2], conds + ((t[1], True),)) + _lwc3(t[3], conds + ((t[1], False),))
+        return [(t, conds)]
+    dts_c, datas_c = _lwc3(s2.dtype), _lwc3(s2.data)
+    own = {}
+    if len(dts_c) == len(dts) and len(datas_c) == len(datas):
+        for (dt_, cd_) in dts_c:
+            own[id(dt_)] = [d_ for d_, cx_ in datas_c if not any((c_, not p_) in cx_ for c_, p_ in cd_)]
     for dt in dts:
-        v, why = _admissible2(ctx, s2, dt, datas)
+        mine = own.get(id(dt)) or datas
+        v, why = _admissible2(ctx, s2, dt, mine)
         if v is None:
             raise AnalysisError(f"{f.qualname} line {getattr(s2.node, 'lineno', '?')}: cannot classify construction site "
                                 f"`{s2.sh(s2.call, 90)}` (dtype `{s2.sh(dt, 50)}`): {why}")
@@ -272,6 +287,9 @@ def _admissible2(ctx, s2, dt, datas):
     if dt[0] == "call" and dt[1] == ("name", "infer_dtype") and len(dt[2]) == 1:
         if strip_seq(it, dt[2][0]) == strip_seq(it, s2.data):
             return (True, f"INFER over the data itself ({sh(s2.data, 30)})")
+        # (the data alternatives of this dtype's own branch: a helper that returns (values, dtype) from two branches)
+        if datas and all(strip_seq(it, dt[2][0]) == strip_seq(it, d_) for d_ in datas):
+            return (True, f"INFER over the data of its own branch ({sh(datas[0], 30)})")
         return (False, f"dtype is inferred from `{sh(dt[2][0], 50)}` but the vector stores `{sh(s2.data, 50)}`")
     # ---- CONST
     cd = const_dtype(dt)
